@@ -320,6 +320,8 @@ theorem wsgi_body_is_bytes (app : App) (s : Slots) (r : Req) (hd : DomainC app r
   have hout : Out.all homog (handle app s r).2.2 = true := by
     -- objects flowing out of `_handle` come from the program or are built by the model
     unfold handle
+    rw [reinit_eq]
+    unfold handleFrom
     simp only
     split
     · exact internal_homog.mkError_all 400 _ [] (by omega) (by omega) rfl
